@@ -43,7 +43,7 @@ RULE = (
     "outcome class, exception class, innermost dns.* function)."
 )
 RULE += " " + (
-    "Also: keyrings in every documented form with the TSIG algorithm field altered; exactly-one-damaged-record messages in continue-on-error mode (one failure, offset inside that record, all other records delivered); escape digits that are digits but not decimal; zone files as octets that are not UTF-8 (bytes and file)."
+    "Also: keyrings in every documented form with the TSIG algorithm field altered; exactly-one-damaged-record messages in continue-on-error mode (one failure, offset inside that record, all other records delivered); escape digits that are digits but not decimal; zone files as octets that are not UTF-8 (bytes and file). Accepted TTLs fit 32 bits."
 )
 ASSUMPTIONS = [
     "violation = exception that is not a dns.exception.DNSException subclass (documented ValueError/KeyError raised from the zone-semantic layer excepted); the narrow FormError / SyntaxError family is demanded only where the API promises it (dns.rdata.from_wire / from_text)",
